@@ -678,6 +678,9 @@ def roll_constant_waveforms(program: Loop, minimal_waveform_quanta: int, wavefor
             roll_constant_waveforms(child, minimal_waveform_quanta, waveform_quantum, sample_rate)
     else:
         waveform_quanta = (waveform.duration * sample_rate) // waveform_quantum
+        if waveform_quanta * waveform_quantum != waveform.duration * sample_rate:
+            # the waveform is not a whole number of quanta long: rolling it would change its duration
+            return
 
         # example
         # waveform_quanta = 15
@@ -707,6 +710,7 @@ def roll_constant_waveforms(program: Loop, minimal_waveform_quanta: int, wavefor
         # use the private properties to avoid invalidating the duration cache of the parent loop
         program._repetition_definition = program.repetition_definition * additional_repetition_count
         program._waveform = new_waveform
+        program._cached_body_duration = None
 
 
 def _repeat_loop_measurements(begin_length_list: List[np.ndarray],
